@@ -254,7 +254,24 @@ def handleConn (inp impl : Json) : Verdict :=
   let wsAgree := !wf || modelWs == ws
   -- instance of the theorem on this run: the model's own traces satisfy the predicate
   let thmInstance := !wf || !(modelWs == ws) || deliveredOK isServer es (c.coll.out.map Trace.obs)
-  let agree := misses == 0 && mTraces == iTraces && wsAgree && thmInstance && (delivered == traceProblem.isNone)
+  -- Ill-formed traffic in which one test name is carried by several streams: when a GOAWAY or the
+  -- loss of the connection closes more than one of them at once, the code completes them in Go's map
+  -- iteration order (setMaxStreamIDLocked / cancelAll range over c.streams) and which trace the retry
+  -- collector keeps under that name differs from run to run.  Nothing is claimed for such traffic
+  -- (Spec.wellFormed excludes it); model and implementation are compared on the other names and on
+  -- the number of traces per ambiguous name.
+  let reqNames := (framesJ.filter (fun f => str (field f "d") == "q" && str (field f "t") == "H")).filterMap (fun f =>
+    match (parseFields (field f "f")).find? (fun kv => kv.1 == "x-test-case-name") with
+    | some kv => if kv.2 == "" then none else some kv.2
+    | none => none)
+  let dupNames := asSet (reqNames.filter (fun n => (reqNames.filter (· == n)).length > 1))
+  let ambiguous := !wf && !dupNames.isEmpty
+  let sameTraces :=
+    if ambiguous then
+      mTraces.filter (fun o => !dupNames.contains o.name) == iTraces.filter (fun o => !dupNames.contains o.name) &&
+      dupNames.all (fun n => (mTraces.filter (·.name == n)).length == (iTraces.filter (·.name == n)).length)
+    else mTraces == iTraces
+  let agree := misses == 0 && sameTraces && wsAgree && thmInstance && (delivered == traceProblem.isNone)
   { agree := agree, holds := holds,
     nontrivial := if wf then !(namesOf es).isEmpty else !iTraces.isEmpty || c.rd.broken || c.wr.broken,
     model := Json.mkObj [("traces", Json.arr (mTraces.map obsJson).toArray), ("broken", Json.arr #[c.rd.broken, c.wr.broken]),
@@ -269,7 +286,7 @@ def handleConn (inp impl : Json) : Verdict :=
                else if !thmInstance then "driver: the model's traces do not satisfy Spec.deliveredOK (contradicts Props.C15.end_to_end)"
                else "",
     cls := if wf then (if (es.any (·.superseded)) then "wf-retry" else if es.any (fun e => e.held) then "wf-held" else "wf")
-           else if legal then "legal-odd" else "malformed" }
+           else if ambiguous then "odd-duplicate-name" else if legal then "legal-odd" else "malformed" }
 
 /-! ### the retry collector on its own -/
 
